@@ -829,6 +829,23 @@ def c03_14(ctx):
     tcheck(ctx, "for i, b in enumerate(v):" in t and "if b != 0:" in t and "return not (i == len(v) - 1 and b == 128)" in t and t.rstrip().endswith("return False"), "cast-to-bool", ctx.where(cb), "_cast_to_bool is not CastToBool (any non-zero byte, except a sole trailing 0x80)")
 
 
+    # whatever the spelling: 0x80 counts as zero in the LAST position only, so a CastToBool that looks at the sign bit (a 0x80 /
+    # 0x7f constant) has to tell the last byte from the others somewhere -- an index compared with the length, v[-1], v[:-1],
+    # reversed(..).  One that masks or compares every byte alike takes b'\x80\x00' (= 128) for false.
+    body = [n for st in cb.node.body for n in ast.walk(st)]
+    signbit = [n for n in body if isinstance(n, ast.Constant) and n.value in (0x80, 0x7F, b"\x80", b"\x7f")]
+    if signbit:
+        neg = lambda e: isinstance(e, ast.UnaryOp) and isinstance(e.op, ast.USub)
+        positional = [n for n in body if (isinstance(n, ast.Call) and isinstance(n.func, ast.Name) and n.func.id in ("len", "reversed")) or
+                      (isinstance(n, ast.Subscript) and (neg(n.slice) or (isinstance(n.slice, ast.Slice) and any(neg(b_) for b_ in (n.slice.lower, n.slice.upper) if b_ is not None)))) or
+                      (isinstance(n, ast.Call) and isinstance(n.func, ast.Attribute) and n.func.attr in ("pop", "endswith", "rstrip"))]
+        ctx.check(bool(positional), "cast-to-bool-last-byte-only", ctx.where(cb, signbit[0]),
+                  "_cast_to_bool looks at the sign bit (constant %r) without telling the last byte from the others (no length, no [-1] / [:-1], no reversed): 0x80 is masked in every position, so b'\\x80\\x00' (128) is false"
+                  % signbit[0].value, sample={"sign_constants": len(signbit), "positional_terms": len(positional)}, semantic=True)
+    else:
+        ctx.undecided("cast-to-bool-last-byte-only", ctx.where(cb), "_cast_to_bool mentions no sign-bit constant: it delegates or is written in a form this clause does not read")
+
+
 def c03_13(ctx):
     from rules.C06 import cache_scope
     cache_scope(ctx)
